@@ -187,7 +187,7 @@ class DefinitionDict:
                                                                  tag_list=tags_with_issues,
                                                                  expected_count=1 if def_takes_value else 0)
 
-        if (len(placeholder_tags) == 1) != def_takes_value:
+        if len(placeholder_tags) != (1 if def_takes_value else 0):
             new_issues += ErrorHandler.format_error_with_context(error_handler,
                                                                  DefinitionErrors.WRONG_NUMBER_PLACEHOLDER_TAGS,
                                                                  def_name=def_tag_name,
